@@ -26,12 +26,26 @@ FRESH = [rc.comp(8, b'zz'), rc.comp(8, b'q')]
 def impl_matches(checker, name):
     out = set()
     syms = getattr(checker, 'nvf_symbols', None)     # set on the symbol-less variant: tag number -> identifier of the full model
+    kept = []
     for rule_names, ctx in checker.match(name):
         for rn in rule_names:
             if lvs.INTERIOR.match(rn):
                 continue
             out.add((lvs.STRIP_TMP.sub('', rn), frozenset((syms.get(k, k) if syms is not None else k, bytes(v)) for k, v in ctx.items())))
+        kept.append((rule_names, ctx))
+    # what match() handed out belongs to the caller, who may edit it (collect rule names into its own list, fill the bindings in):
+    # later queries are not affected by that (every name is asked about several times in a run)
+    SCRIBBLED[0] += 1
+    if SCRIBBLED[0] % 3 == 0:
+        for rule_names, ctx in kept:
+            if isinstance(rule_names, list):
+                rule_names.append('#edited-by-the-caller')
+            if isinstance(ctx, dict):
+                ctx['edited-by-the-caller'] = b'\x08\x01e'
     return out
+
+
+SCRIBBLED = [0]
 
 
 def classify(schema, diff_rules):
